@@ -28,6 +28,14 @@ REQUIRED = ["body_erases", "merge_erases_partial", "merge_erases_not_full", "exi
 
 # hand-written pairs run first (probes made while modelling; the known-finding witnesses are in W too)
 HAND_CASES = [
+    # @overload variants in the stub (libcst keys stub functions by name and arity: the last variant with the key wins)
+    ("def f(x=None): return x\ndef g(a, b): return a\n",
+     "from typing import Any, Never, overload\n@overload\ndef f() -> int: ...\n@overload\ndef f(x) -> Any: ...\n"
+     "@overload\ndef g(a: int, b: int) -> Never: ...\n@overload\ndef g(a: str, b: str) -> str: ...\n"),
+    ("class A:\n    def m(self, k, *a): return k\n    def n(self): return 1\n",
+     "from typing import Any, overload\nclass A:\n    @overload\n    def m(self, k: str, *a) -> Any: ...\n"
+     "    @overload\n    def m(self, k: int, *a) -> int: ...\n    @overload\n    def n(self) -> Any: ...\n"),
+    ("def h(a): return a\n", "from typing import Any, overload\n@overload\ndef h(a: int) -> Any: ...\n"),
     ("def foo(): return 1\nx = foo()\ny = foo()\n",
      "from typing import Any, Never\nx: Any\ny: Never\ndef foo() -> int: ...\n"),
     ("import os\nx = []\ndef f(a, *args, b=1, **kw): return a\n",
